@@ -76,7 +76,8 @@ func Human(h *History, i int) map[string]interface{} {
 	}
 	r := h.Reqs[i]
 	return map[string]interface{}{"container": map[string]interface{}{"encoding": h.Cfg.Enc, "recover": h.Cfg.Recover, "customRecoverHandler": h.Cfg.HasRS,
-		"recoverScript": actStrs(h.Cfg.RScript), "containerFilters": fl(h.Cfg.CF), "serviceFilters": svcf, "routes": routes, "plainHandler": actStrs(h.Cfg.Plain), "provider": h.Cfg.Provider},
+		"recoverScript": actStrs(h.Cfg.RScript), "containerFilters": fl(h.Cfg.CF), "serviceFilters": svcf, "routes": routes, "plainHandler": actStrs(h.Cfg.Plain), "provider": h.Cfg.Provider,
+		"late": h.Cfg.Late},
 		"table": h.Cfg.Routing.Sx().String(), "position_in_history": i, "history_length": len(h.Reqs),
 		"request": map[string]interface{}{"entry": r.Entry, "method": r.Req.Method, "path": r.Req.Path, "accept_encoding": r.AE, "prior_content_encoding": r.Prior}}
 }
@@ -87,6 +88,10 @@ func actStrs(as []Act) []string {
 		switch a.K {
 		case "w":
 			out = append(out, fmt.Sprintf("write(%d bytes)", len(a.B)))
+		case "ws":
+			out = append(out, fmt.Sprintf("io.WriteString(raw writer, %d bytes)", len(a.B)))
+		case "hj":
+			out = append(out, "Hijack()")
 		case "wh":
 			out = append(out, fmt.Sprintf("writeHeader(%d)", a.N))
 		case "ah":
@@ -317,7 +322,7 @@ func CheckPurity(run *report.Run, o GenOpts, n, maxLen int) error {
 		}
 		// (2) tracing on
 		restful.TraceLogger(stdlog.New(io.Discard, "", 0)) // sets the trace logger and enables tracing
-		cont, err := Build(h.Cfg)
+		cont, err := BuildFor(h.Cfg, h.Reqs)
 		if err != nil {
 			restful.EnableTracing(false)
 			return err
